@@ -259,7 +259,7 @@ func c16R2(c *Ctx, rule string) {
 			engine.Event("errStr", isDec("string")),
 			engine.PredCond("errStrErr", func(cd engine.Cond) (bool, int) {
 				if cd.IsRel && strings.HasPrefix(cd.X, "p1.dec.Decode(") && strings.Contains(cd.X, "string") && cd.Y == "nil" {
-					if cd.EdgeOrd(true) == engine.LT|engine.GT {
+					if isNEc(cd) {
 						return true, engine.True
 					}
 					return true, engine.False
@@ -299,7 +299,7 @@ func c16R2(c *Ctx, rule string) {
 			}),
 			engine.PredCond("errStrErr", func(cd engine.Cond) (bool, int) {
 				if cd.IsRel && strings.HasPrefix(cd.X, "p3.Encode(phi(") && cd.Y == "nil" {
-					if cd.EdgeOrd(true) == engine.LT|engine.GT {
+					if isNEc(cd) {
 						return true, engine.True
 					}
 					return true, engine.False
@@ -379,7 +379,7 @@ func c16R2(c *Ctx, rule string) {
 			}),
 			engine.PredCond("bodyErr", func(cd engine.Cond) (bool, int) {
 				if cd.IsRel && strings.HasPrefix(cd.X, "io.Copy(") && strings.HasSuffix(cd.X, "#1") && cd.Y == "nil" {
-					if cd.EdgeOrd(true) == engine.LT|engine.GT {
+					if isNEc(cd) {
 						return true, engine.True
 					}
 					return true, engine.False
@@ -389,7 +389,7 @@ func c16R2(c *Ctx, rule string) {
 			engine.Event("flush", c.P.IsCallTo(engine.Is("(*bufio.Writer).Flush"))),
 			engine.PredCond("flushErr", func(cd engine.Cond) (bool, int) {
 				if cd.IsRel && strings.HasSuffix(cd.X, ".w.Flush()") && cd.Y == "nil" {
-					if cd.EdgeOrd(true) == engine.LT|engine.GT {
+					if isNEc(cd) {
 						return true, engine.True
 					}
 					return true, engine.False
@@ -444,7 +444,7 @@ func c16R3(c *Ctx, rule string) {
 	if df := c.P.Fn("decodeResponse"); df != nil {
 		r2 := c.Run(&engine.Automaton{Fn: df, Tracks: []engine.Track{engine.PredCond("remoteErr", func(cd engine.Cond) (bool, int) {
 			if cd.IsRel && cd.Y == `""` && (strings.HasPrefix(cd.X, "var(string)") || strings.HasPrefix(cd.X, "new(string)")) {
-				if cd.EdgeOrd(true) == engine.LT|engine.GT {
+				if isNEc(cd) {
 					return true, engine.True
 				}
 				return true, engine.False
